@@ -210,6 +210,18 @@ mod verif_kani {
         }
     }
 
+    // V2y (expected to FAIL on the pinned tree, known finding): the ORDER of two integers is the integer order. Ord for NumberValue
+    // compares through `as f64`, so two different integers above 2^53 that share a double compare Equal.
+    #[kani::proof]
+    fn v2y_integer_order_exact() {
+        let x: u64 = kani::any();
+        let y: u64 = kani::any();
+        assert!(NumberValue::Positive(x).cmp(&NumberValue::Positive(y)) == x.cmp(&y));
+        let p: i64 = kani::any();
+        let q: i64 = kani::any();
+        assert!(NumberValue::Negative(p).cmp(&NumberValue::Negative(q)) == p.cmp(&q));
+    }
+
     // V4: same-variant integers are compared as integers, bit for bit (no detour through a double)
     #[kani::proof]
     fn v4_integer_eq_exact() {
